@@ -173,17 +173,23 @@ def c07_on_fatal_other(vc, spec, res, c, recs):
 # ---------------------------------------------------------------------------
 # IRC-level monitors over the shared history engine (in-package ircserver harness)
 
+MAIN_ENGINE = {"pkg": ".", "name": "engine_real_glue", "test": "^TestVerifIRCMain$", "children": {"quick": 6, "thorough": 16}, "cases": {"quick": 60, "thorough": 600}}
+
+
 def irc_engine(pid, title, rule, cases, children, explanation="", technique="", level_text=""):
-    register(pid, title=title, technique=technique, level_text=level_text, engine="irc-history-engine", pkg="./internal/ircserver", test="^TestVerifIRC$",
-             children=children, cases=cases, timeout={"quick": 300, "thorough": 1500},
+    register(pid, title=title, technique=technique, level_text=level_text, engine="irc-history-engine",
+             parts=[{"pkg": "./internal/ircserver", "test": "^TestVerifIRC$", "children": children, "cases": cases}, dict(MAIN_ENGINE)],
+             timeout={"quick": 300, "thorough": 1500},
              level="exploration", rule=rule, explanation=explanation,
              floor={"quick": 5000, "thorough": 100000},
-             assumptions=["the in-package glue VerifApply mirrors FSM.applyRobustMessage (cross-checked by the C01 package-main layer)",
+             assumptions=["layer 1 applies entries through an in-package mirror of FSM.applyRobustMessage; layer 2 (package main) applies the same kind of "
+                          "histories through the real FSM glue and a real output stream with the same monitors",
                           "entries never contain CR, LF or NUL (the HTTP API strips them; checked at the HTTP layer by C15)"])
 
 
 ENGINE_RULE = ("seeded entry histories (sessions, client/oper/services lines from a grammar over all keys of ircserver.Commands, "
-               "garbage, config, delete, message-of-death entries) applied to the real IRCServer through the FSM glue; every entry is "
+               "garbage, config, delete, message-of-death entries, directed scenarios, clock steps, forced snapshot round trips) applied to the real "
+               "IRCServer through the FSM glue (layer 1: in-package mirror; layer 2: the real FSM.applyRobustMessage with a real output stream); every entry is "
                "judged by the monitor of this property on (View before, replies, View after). evaluations = entries applied; a case is "
                "distinct by (command, role, first reply command, single/multi reply, state changed)")
 
@@ -245,7 +251,8 @@ register("C01", title="replica determinism", engine="irc-history-engine",
          level_text="divergence between executions of the same history is observed directly; a dependence on map order over n>=2 elements shows with probability >= 1-2^-(K-1) per occurrence")
 register("C15", title="one well-formed line", engine="irc-history-engine",
          parts=[{"pkg": "./internal/ircserver", "test": "^TestVerifIRC$", "children": {"quick": 12, "thorough": 16}, "cases": {"quick": 250, "thorough": 5000}},
-                {"pkg": ".", "test": "^TestVerifC15HTTP$", "children": {"quick": 4, "thorough": 16}, "cases": {"quick": 2, "thorough": 12}}],
+                {"pkg": ".", "test": "^TestVerifC15HTTP$", "children": {"quick": 4, "thorough": 16}, "cases": {"quick": 2, "thorough": 12}},
+                dict(MAIN_ENGINE)],
          timeout={"quick": 400, "thorough": 2400}, level="exploration",
          rule=ENGINE_RULE + "; every output line of every entry is judged (<=510 bytes, no CR/LF/NUL, [':' prefix ' '] command head, prefix on relayed lines). "
               "HTTP layer: an in-process node receives POST bodies whose Data holds control characters in every position class, 2 kB and multi-byte text, "
@@ -266,6 +273,7 @@ register("C17", title="session lifecycle", engine="irc-history-engine", pkg="./i
                 {"test": "^TestVerifC17Concurrent$", "children": {"quick": 2, "thorough": 8}, "cases": {"quick": 30000, "thorough": 400000}},
                 {"test": "^TestVerifIRC$", "children": {"quick": 8, "thorough": 16}, "cases": {"quick": 150, "thorough": 3000}},
                 {"pkg": ".", "test": "^TestVerifC17API$", "children": {"quick": 1, "thorough": 4}, "cases": {"quick": 10, "thorough": 100}},
+                dict(MAIN_ENGINE),
                 {"cluster": True, "children": {"quick": 1, "thorough": 4}, "cases": {"quick": 1, "thorough": 3}, "race": {"quick": False, "thorough": False},
                  "timeout": {"quick": 500, "thorough": 2400}}],
          timeout={"quick": 300, "thorough": 1800}, level="exploration",
@@ -388,6 +396,8 @@ register("C02", title="compaction / snapshot / restore are invisible", pkg=".",
 register("C10", title="retried POST is not applied twice", pkg=".",
          env={"ROBUSTIRC_TESTING_ENABLE_PANIC_COMMAND": "1"},
          parts=[{"test": "^TestVerifC10$", "children": {"quick": 8, "thorough": 16}, "cases": {"quick": 40, "thorough": 400}},
+                {"pkg": "./internal/ircserver", "test": "^TestVerifIRC$", "children": {"quick": 6, "thorough": 16}, "cases": {"quick": 150, "thorough": 3000}},
+                dict(MAIN_ENGINE),
                 {"test": "^TestVerifC07$", "children": {"quick": 4, "thorough": 8}, "cases": {"quick": 5, "thorough": 30}, "on_fatal": c07_on_fatal_other}],
          timeout={"quick": 400, "thorough": 2400}, level="exploration",
          rule="in-process node (real stores, FSM, single-voter raft, real API on a loopback listener): clients POST, then repeat the same (session, client "
